@@ -134,6 +134,17 @@ def run_static(res, spec):
         by_j = [[n.node_id for n in jl] for jl in g.nodes_by_job]
         if by_j != [[ref.op_id[(j, p)] for p in range(ref.jlen[j])] for j in range(ref.J)]:
             res.violation(check, "nodes_by_job-wrong", sig=sig, observed=by_j, **common)
+        # building a graph of ANOTHER (larger) instance must not disturb this one
+        other = impl.mk_instance(spec + ((((0,), 1), ((ref.M,), 2)),))
+        _env.builder(b)(other)
+        try:
+            ids_again = [n.node_id for n in g.nodes]
+            attr_ids = [g.graph.nodes[i]["node"].node_id for i in sorted(g.graph.nodes())]
+            live = [n.node_id for n in g.non_removed_nodes()]
+            if ids_again != list(range(len(want_nodes))) or attr_ids != sorted(g.graph.nodes()) or live != ids_again:
+                res.violation(check, "graph-disturbed-by-building-another-graph", sig=sig, node_ids=ids_again, attr_ids=attr_ids, **common)
+        except Exception as exc:  # noqa: BLE001
+            res.violation(check, f"graph-disturbed-by-building-another-graph:{type(exc).__name__}", sig=sig, error=repr(exc)[:200], **common)
     res.add("states")
     if ref.N == 3 and ref.J == 2 and ref.flexible and len(res.samples) < 1:
         res.sample({"spec": spec, "builder": "agent_task", "edges": sorted(edges_spec(ref, "agent_task"))[:12]})
